@@ -127,11 +127,11 @@ contract(C + "interval_len", {"interval": IV}, returns="int", transparent=True, 
 
 contract(C + "overlaps_at_least", {"range1": IV, "range2": IV, "delta": "int"}, returns="bool", transparent=True,
          props=["C19"], requires=["ok(range1)", "ok(range2)", "delta >= 0"],
-         # true iff the ranges overlap and either the overlap has at least delta positions or one contains the other
+         # true iff the ranges overlap and either the overlap has at least delta positions or one contains the other (either way round:
+         # the statement is symmetric in the two ranges and invariant under reflection of the axis)
          ensures=["result == (max(range1[0], range2[0]) <= min(range1[1], range2[1]) and "
-                  "(min(range1[1], range2[1]) - max(range1[0], range2[0]) + 1 >= delta - 0 or "
-                  " min(range1[1], range2[1]) - max(range1[0], range2[0]) >= delta - 1 or "
-                  " (range1[0] >= range2[0] and range1[1] < range2[1]) or (range1[0] <= range2[0] and range1[1] >= range2[1])))"],
+                  "(min(range1[1], range2[1]) - max(range1[0], range2[0]) + 1 >= delta or "
+                  " (range1[0] >= range2[0] and range1[1] <= range2[1]) or (range1[0] <= range2[0] and range1[1] >= range2[1])))"],
          canary="result == (max(range1[0], range2[0]) <= min(range1[1], range2[1]))")
 
 contract(C + "overlaps_at_least_when_overlap", {"range1": IV, "range2": IV, "delta": "int"}, returns="bool",
@@ -139,7 +139,7 @@ contract(C + "overlaps_at_least_when_overlap", {"range1": IV, "range2": IV, "del
          # the "dangerous function" comment becomes the precondition: the ranges overlap
          requires=["ok(range1)", "ok(range2)", "delta >= 0", "max(range1[0], range2[0]) <= min(range1[1], range2[1])"],
          ensures=["result == (min(range1[1], range2[1]) - max(range1[0], range2[0]) + 1 >= delta or "
-                  "(range1[0] >= range2[0] and range1[1] < range2[1]) or (range1[0] <= range2[0] and range1[1] >= range2[1]))"])
+                  "(range1[0] >= range2[0] and range1[1] <= range2[1]) or (range1[0] <= range2[0] and range1[1] >= range2[1]))"])
 
 # ---- sums over sorted interval lists ------------------------------------------------------------------------------
 contract(C + "intervals_total_length", {"sorted_range_list": IVS}, returns="int", props=["C19"],
